@@ -1,7 +1,8 @@
 """C17 (narrow claim): depth and field-count queries of the node classes follow the nested structure - a list node is one level deeper than
 its content, option / indexed nodes are exactly as deep; key(position) / keys / haskey of record nodes; form(materialize) of the list, indexed
-and option node classes names the node's own kind, index width, size / valid_when / lsb_order and holds the content's own form.  Types, the
-forms of leaves / records / unions, Form <-> JSON and printing / parsing are not addressed (rapidjson, std::string building, the Lark parser
+and option node classes names the node's own kind, index width, size / valid_when / lsb_order and holds the content's own form; the forms of
+NumpyArray (inner shape, item size, format, dtype) and RecordArray (names, one form per field in order); type() of the list / indexed / option
+nodes without parameters (var * T, size * T, ?T, T).  Type strings, parameters on types, the forms of unions, Form <-> JSON and printing / parsing are not addressed (rapidjson, std::string building, the Lark parser
 over _ext types)."""
 from . import runner, mnode
 from .oracle import summarize
@@ -9,7 +10,8 @@ from .oracle import summarize
 ASSUMPTIONS = [
     'node objects are raw memory at the IR field offsets over an opaque content whose purelist_depth / minmax_depth / branch_depth / numfields answers are arbitrary (symbolic)',
     'form(materialize): the content answers with an opaque Form object; the Form returned is read back from memory (class by vtable, tags, flags, content pointer); replay through Form::tojson of the natively built library',
-    'outside: Type objects, forms of NumpyArray / RecordArray / UnionArray / EmptyArray / VirtualArray, type strings, Form <-> JSON text, the datashape parser, purelist_isregular (computed on forms), highlevel ak.type',
+    'type(): the content\'s form is a test double with a Form vtable whose type() reports an opaque Type; the Type returned is read back from memory (class, inner type pointer, size); replay through Type::tostring natively',
+    'outside: types of leaves / records / unions and every use of parameters or type strings on types, forms of UnionArray / EmptyArray / VirtualArray, type strings, Form <-> JSON text, the datashape parser, purelist_isregular (computed on forms), highlevel ak.type',
 ]
 
 
